@@ -363,7 +363,7 @@ NATIVE_RULES = {  # C15: plus a simulated twin, see PROPS['C15']
 
     'C17': 'part (a): EVERY state of the model-state graph reachable over 5 elements and 2 lists (rings of elements, list heads) is visited and EVERY legal operation (make_first, make_last, remove, splice_after) is executed from it on the real dll.c and compared with plain arrays (forward, backward, emptiness, self-linked singletons) - exhaustive; part (b): rapidcheck sequences of up to 200 operations over 8 elements / 3 lists; part (c): libFuzzer over the same interpreter with ASan+UBSan; non-trivial = sequence contains a splice or a removal from a list of >= 2 elements; distinct = distinct model states (a) + distinct operation sequences (b)',
     'C18': 'part (a): boundary grid seconds {0,+-1,+-2,+-2^31,2^31-1,+-2^40,+-2^62,max-1,min+2} x nanoseconds {0,1,5e8,1e9-1}, ALL pairs, cmp transitivity triples, ms/us grid, both builds (C file and C++ file linked together) - exhaustive; part (b): rapidcheck over normalized pairs with magnitudes spread over all bit lengths plus random 32-bit ms/us arguments; part (c): libFuzzer; oracle = 128-bit integer arithmetic; pairs whose seconds arithmetic would overflow time_t are not judged for add/sub; non-trivial = the pair needs a carry or a borrow; distinct = distinct pairs',
-    'C15': 'simulated twin: MON programs with pre-epoch deadlines on the modelled futex; real libraries: exhaustive boundary grid 16 deadlines (0, +-1 ns, +-1 s, -2^31 s, -2^62 s, INT64_MIN+1 s, now-30ms, now-2s, now+20ms, now+40ms, max-1ns, max-1s, no_deadline, now+1000s) x 9 timed entry points x {libnsync.a, libnsync_cpp.a} built by cmake from the working tree, each case in its own child process with a 20 s watchdog (3/3 hangs only); plus rapidcheck random deadlines (pre-epoch, epoch..now, now-d, now+20..60ms, far future); non-trivial = a deadline the existing suite does not use (not 0, not no_deadline, not now+small); distinct = distinct (library, entry, deadline) triples',
+    'C15': 'simulated twin: MON programs with pre-epoch deadlines on the modelled futex; real libraries: exhaustive boundary grid 16 deadlines (0, +-1 ns, +-1 s, -2^31 s, -2^62 s, INT64_MIN+1 s, now-30ms, now-2s, now+20ms, now+40ms, max-1ns, max-1s, no_deadline, now+1000s) x 9 timed entry points x {libnsync.a, libnsync_cpp.a} built by cmake from the working tree, and, for the C++ build, the same 9 entry points through their std::chrono time_point overloads on a second grid of 16 instants (epoch, +-1 ns, -0.5 s, -1.5 s, +-1 s, -2^31 s, time_point::min, now-30ms, now-2s, now+20/40ms, time_point::max, max-1.85s, now+1000s); each case in its own child process with a 20 s watchdog (3/3 hangs only); plus rapidcheck random deadlines (pre-epoch, epoch..now, now-d, now+20..60ms, far future); non-trivial = a deadline the existing suite does not use (not 0, not no_deadline, not now+small); distinct = distinct (library, entry, deadline) triples',
 }
 
 
@@ -411,6 +411,9 @@ def native_build(pid):
         must(f'clang++ -fsanitize=address,undefined -o {wdir}/c18_check {BIN}/c18.o {objs("")} -lrapidcheck -lpthread')
         must(f'clang++ -fsanitize=fuzzer,address,undefined -o {wdir}/c18_fuzz {BIN}/c18_fuzz.o {objs("_fuzz")} -lpthread')
     elif pid == 'C15':
+        cache = f'{wdir}/build/CMakeCache.txt'
+        if os.path.exists(cache) and f'CMAKE_HOME_DIRECTORY:INTERNAL={os.path.realpath(REPO)}\n' not in open(cache).read():
+            shutil.rmtree(f'{wdir}/build')   # configured for another source tree (VERIF_REPO)
         must(f'cmake -G Ninja -S {REPO} -B {wdir}/build -DNSYNC_ENABLE_TESTS=OFF -DCMAKE_BUILD_TYPE=RelWithDebInfo')
         must(f'cmake --build {wdir}/build')
         must(f'gcc -O1 -g -I{REPO}/public {V}/native/c15_child.c {wdir}/build/libnsync.a -lpthread -o {wdir}/c15_child_c')
